@@ -139,6 +139,17 @@ func TestConcurrentPresentations(t *testing.T) {
 			t.Fatalf("NewMapExpiringKeyRepository: %v", err)
 		}
 		d := &middleware.Deduplicator{KeyFactory: hs.build(), Repository: repo, Timeout: time.Second}
+		// documented defaults: nil Deduplicator / unset fields = Adler-32 over the whole payload, in-memory repository
+		switch rapid.SampledFrom([]string{"explicit", "explicit", "nil", "zero", "no-timeout"}).Draw(t, "configuration") {
+		case "nil":
+			d = nil
+			hs = hasherSpec{Kind: "adler", Limit: math.MaxInt64}
+		case "zero":
+			d = &middleware.Deduplicator{}
+			hs = hasherSpec{Kind: "adler", Limit: math.MaxInt64}
+		case "no-timeout":
+			d.Timeout = 0
+		}
 
 		concurrentDup := false
 		for r := 0; r < rounds; r++ {
